@@ -188,6 +188,16 @@ def own_length(case, chunks):
 
 STATIC_MTIME = 1000000000          # every file the runner serves carries this modification time
 SF_DATA = b'static tool file: 0123456789abcdefghijklmnopqrstuvwxyz'
+
+
+def sf_data(case):
+    """the file tools.staticfile serves: ext sf = 1 -> SF_DATA, sf = n > 1 -> n bytes"""
+    n = int((case.get('ext') or {}).get('sf') or 0)
+    if n <= 1:
+        return SF_DATA
+    return (SF_DATA * (n // len(SF_DATA) + 1))[:n]
+
+
 EXT = {'html': 'html', 'plain': 'txt', 'json': 'json', 'octet': 'bin', 'xml': 'xml'}
 
 
@@ -705,7 +715,7 @@ def _run(case, reqs):
     cherrypy._cache.clear()
     CUR['gen'] = 0
     if (case.get('ext') or {}).get('sf'):
-        write_static(static_path(case, 'sf'), SF_DATA)
+        write_static(static_path(case, 'sf'), sf_data(case))
     kind0, chunks0 = CUR['bodies'][0]
     if kind0 == 'X':
         write_static(static_path(case, 'f'), b''.join(v for k, v in chunks0))
@@ -722,7 +732,7 @@ def ranges_for(case, req):
     kind, chunks = parse_body(case['body'].split('|')[0])
     size = sum(len(v) for k, v in chunks if k == 'b')
     if (case.get('ext') or {}).get('sf'):
-        size = len(SF_DATA)
+        size = len(sf_data(case))
     if req.get('range', '-') == '-':
         return None
     return _httputil.get_ranges(req['range'], size)
